@@ -27,10 +27,16 @@ _stmt = st.one_of(
     st.tuples(st.just("select_all")).map(list),
     st.tuples(st.just("create"), st.integers(0, 3)).map(list),
     st.tuples(st.just("count")).map(list),
+    st.tuples(st.just("set_var"), st.integers(0, 99)).map(list),
+    st.tuples(st.just("use_var")).map(list),
+    st.tuples(st.just("nop"), st.sampled_from(["CALL SOME_PROC(1)", "call other_proc('a;b')"])).map(list),
 )
-_sep = st.sampled_from([";", ";\n", " ; ", ";\n\n", ";;", "; ;", ";\n-- a comment; with a semicolon\n", "; /* block; comment */ ", ";\n/* multi\nline */\n", " ;\t"])
-_lead = st.sampled_from(["", "", " ", "\n", "-- leading comment\n", "/* leading */ ", "-- it's a comment with a quote\n"])
-_trail = st.sampled_from(["", ";", ";\n", "; -- trailing comment", ";\n/* the end */", "\n"])
+SEPS = [";", ";\n", " ; ", ";\n\n", ";;", "; ;", ";\n-- a comment; with a semicolon\n", "; /* block; comment */ ", ";\n/* multi\nline */\n", " ;\t"]
+LEADS = ["", "", " ", "\n", "-- leading comment\n", "/* leading */ ", "-- it's a comment with a quote\n"]
+TRAILS = ["", ";", ";\n", "; -- trailing comment", ";\n/* the end */", "\n"]
+_sep = st.sampled_from(SEPS)
+_lead = st.sampled_from(LEADS)
+_trail = st.sampled_from(TRAILS)
 
 
 @st.composite
@@ -76,6 +82,14 @@ def _render(st_) -> tuple[str, str | None] | None:
         return (f"CREATE TABLE IF NOT EXISTS U{int(st_[1])} (I INT)", None)
     if k == "count":
         return ("SELECT COUNT(*) AS N FROM T", None)
+    if k == "set_var":
+        return (f"SET VV = {int(st_[1])}", None)
+    if k == "use_var":
+        return ("SELECT $VV AS V", None)  # fails on both routes alike when VV was never set
+    if k == "nop":
+        if st_[1] not in ("CALL SOME_PROC(1)", "call other_proc('a;b')"):
+            raise InvalidCase()
+        return (st_[1], None)  # matches the nop_regexes both instances are configured with
     raise InvalidCase()
 
 
@@ -111,18 +125,32 @@ def run_execute_string(case, ctx: Ctx) -> None:
             raise InvalidCase()
         stmts.insert(fail_at, "SELECT * FROM NO_SUCH_TABLE_ANYWHERE")
         expect.insert(fail_at, None)
+    if case["lead"] not in LEADS or case["trail"] not in TRAILS or any(x not in SEPS for x in case["seps"]):
+        raise InvalidCase()
     seps = list(case["seps"]) + [";"] * len(stmts)
-    text = case["lead"]
+    lead = case["lead"]
+    # whether a statement that has a comment in front of it still "matches" an anchored nop pattern is not stated by the property (the
+    # pattern is matched against the statement text as executed): a nop statement is never placed directly behind a comment
+    is_nop = [st_.upper().startswith("CALL ") for st_ in stmts]
+    if stmts and is_nop[0] and ("--" in lead or "/*" in lead):
+        lead = ""
+    for i in range(1, len(stmts)):
+        if is_nop[i] and ("--" in seps[i - 1] or "/*" in seps[i - 1]):
+            seps[i - 1] = ";\n"
+    text = lead
     for i, s in enumerate(stmts):
         text += s + (seps[i] if i < len(stmts) - 1 else "")
     text += case["trail"]
     cls = DictCursor if case["cursor"] == "dict" else SnowflakeCursor
-    fs, twin = new_instance(), new_instance()
+    fs, twin = new_instance(nop_regexes=[r"^CALL\s"]), new_instance(nop_regexes=[r"^CALL\s"])
     try:
         conn, tconn = fs.connect("db1", "s1"), twin.connect("db1", "s1")
         for c_ in (conn, tconn):
             c_.cursor().execute("CREATE TABLE T (K INT, S VARCHAR)")
             c_.cursor().execute("INSERT INTO T VALUES (1, 'one'), (2, 'two')")
+        for st_ in case["stmts"]:
+            if st_[0] in ("set_var", "use_var", "nop"):
+                ctx.cls(f"statement:{st_[0]}")
         specials = [ch for ch in (";", "'", "\\", "--", "/*") if any(ch in (st_[1] if isinstance(st_[1], str) else "") or (len(st_) > 2 and isinstance(st_[2], str) and ch in st_[2]) for st_ in case["stmts"] if len(st_) > 1)]
         for ch in specials:
             ctx.cls(f"literal-contains:{ch}")
@@ -217,14 +245,18 @@ NOP_STMTS = [
     ("none", "CREATE TABLE X (I INT)", None),
     ("none", "SELECT * FROM MISSING_TABLE", None),
     ("none", "DELETE FROM T WHERE K = 2", None),
+    ("none", "COMMENT ON TABLE T IS 'first'", None),
+    ("none", "ALTER TABLE T SET COMMENT = 'second'", None),
+    ("none", "SET NV = 5", None),
 ]
+COMMENT_ON, ALTER_COMMENT = len(NOP_STMTS) - 3, len(NOP_STMTS) - 2
 
 
 @st.composite
 def _nop_case(draw, tier):
     return {
         "patterns": draw(st.lists(st.integers(0, len(PATTERNS) - 1), max_size=3, unique=True)),
-        "stmts": draw(st.lists(st.integers(0, len(NOP_STMTS) - 1), min_size=1, max_size=6)),
+        "stmts": ([COMMENT_ON, ALTER_COMMENT] if draw(st.integers(0, 3)) == 0 else []) + draw(st.lists(st.integers(0, len(NOP_STMTS) - 1), min_size=1, max_size=6)),
         "same_cursor": draw(st.booleans()),
     }
 
@@ -292,7 +324,8 @@ PROP = Prop(
             strategy=_case,
             run=run_execute_string,
             rule=(
-                "Hypothesis draws 0-8 statements (SELECT <literal>, INSERT/UPDATE/DELETE with literals, SELECT of the table, CREATE, COUNT) "
+                "Hypothesis draws 0-8 statements (SELECT <literal>, INSERT/UPDATE/DELETE with literals, SELECT of the table, CREATE, COUNT, SET of a "
+                "session variable, a $variable reference, a statement matching the instances' nop_regexes) "
                 "whose string literals come from an adversarial alphabet (; ' \\\\ -- /* */ newline, unicode, escapes) in single-quoted or "
                 "$$..$$ form, joined by generated separators (;, whitespace/newlines, empty statements, line and block comments containing "
                 "semicolons and quotes, leading/trailing comments, trailing ; or not), optionally with a failing statement at a generated "
@@ -311,7 +344,7 @@ PROP = Prop(
             rule=(
                 "0-3 patterns from a pool (anchored/unanchored, mixed case, leading \\\\s*, one matching only the parameter-substituted text) x "
                 "1-6 statements that match at the start, contain the pattern text only in the middle, match only after parameter substitution, "
-                "or do not match; oracle: re.match(p, text, IGNORECASE) decides - matching statements return the one-row success status and "
+                "or do not match (incl. COMMENT ON / ALTER .. SET COMMENT / SET, whose bookkeeping a later no-op must not repeat); oracle: re.match(p, text, IGNORECASE) decides - matching statements return the one-row success status and "
                 "leave the snapshot unchanged, all others behave as on a twin without the option. Non-trivial: a script with both kinds."
             ),
             quick=60,
